@@ -83,8 +83,57 @@ def kf8_merger_dynamic(spec, name):
     return False
 
 
+def kf12_names(spec):
+    """Lower-case names of flattened ranks (and their partition levels) that carry a
+    coordinate-style space-time stamp: Canvas.__rel_coord emits that name as a variable,
+    which nothing binds (the loop binds the tuple of the member ranks)."""
+    out = set()
+    flats = set()
+    for ps in (spec.partitioning or {}).values():
+        for k in (ps or {}):
+            if k.startswith("("):
+                flats.add("".join(x.strip() for x in k.strip("()").split(",")))
+    for st in (spec.spacetime or {}).values():
+        for stamp in list(st.get("space", [])) + list(st.get("time", [])):
+            if not stamp.endswith(".coord"):
+                continue
+            x = stamp[:-len(".coord")]
+            for f in flats:
+                if x == f or (x.startswith(f) and x[len(f):].isdigit()):
+                    out.add(x.lower())
+                    # the stamp of a level is written relative to the enclosing level
+                    if x != f:
+                        out.add((f + str(int(x[len(f):]) + 1)).lower())
+    return out
+
+
+def kf12(spec, problems):
+    """KF-12 explains: an unbound read / NameError of exactly such a name, or a text that
+    does not parse because that name is a Python keyword (ranks I and S flatten to `is`)."""
+    import keyword
+    names = kf12_names(spec)
+    if not names or not problems:
+        return None
+    for p in problems:
+        k = p.get("kind")
+        if k == "unbound-read" and p.get("name") in names:
+            continue
+        if k == "exec-error" and p.get("etype") in ("NameError", "UnboundLocalError") and \
+                name_error_name(p.get("error")) in names:
+            continue
+        kw = any(keyword.iskeyword(n) for n in names)
+        if k == "syntax-error" and kw:
+            continue
+        if k == "tree-text-mismatch" and kw and str(p.get("text", "")).startswith("SyntaxError"):
+            continue
+        return None
+    return "KF-12"
+
+
 def name_kf(spec, name):
     """Which known finding (if any) explains an unbound name."""
+    if name in kf12_names(spec):
+        return "KF-12"
     if kf5_unbound_level_size(spec, name):
         return "KF-5"
     if kf7_unbound_offset(spec, name):
